@@ -70,6 +70,13 @@ struct Top:
     FIRST = 0
     SECOND = 1
   let sum = lo + hi
+  # values whose serialized form is "falsy": the literal false, zero, an empty-string-valued attribute
+  if false:
+    4 [+1]  UInt  never
+  let off = false
+  let zero = 0
+  let neither = off && (lo == 16)
+  let none = zero * hi
 '''
 B = '''struct Foo:
   0 [+1]  UInt  x
